@@ -158,9 +158,15 @@ def run_invocation(spec):
     TOOL = 4
     sig_by_name = {"INT": signal.SIGINT, "TERM": signal.SIGTERM}
 
+    def site_name(fn, line):
+        if fn.startswith(src_prefix):
+            return fn[len(src_prefix):] + ":" + str(line)
+        return ("cond-file-statement" if fn == "<string>" else "subprocess.py") + ":" + str(line)
+
     def on_line(code, line):
         fn = code.co_filename
-        if not (fn.startswith(src_prefix) or (scope_sub and fn == sub_file)):
+        # "<string>": the statements of COND files and of the files they include(), which Conductor exec()s
+        if not (fn.startswith(src_prefix) or fn == "<string>" or (scope_sub and fn == sub_file)):
             return mon.DISABLE
         if threading.get_ident() != main_ident:
             return None
@@ -170,11 +176,11 @@ def run_invocation(spec):
             return None
         lines["n"] += 1
         if spec.get("count_lines"):
-            site = fn[len(src_prefix):] + ":" + str(line) if fn.startswith(src_prefix) else "subprocess.py:" + str(line)
+            site = site_name(fn, line)
             lines["sites"].setdefault(site, []).append(lines["n"])
         if inject and not lines["fired"] and lines["n"] == inject["at_line"]:
             lines["fired"] = True
-            site = (fn[len(src_prefix):] if fn.startswith(src_prefix) else "subprocess.py") + ":" + str(line)
+            site = site_name(fn, line)
             lines["site"] = site
             kernel.ev("inject", sig=inject["signal"], site=site, func=code.co_name, live=[p.pid for p in kernel.running()],
                       zombies=[p.pid for p in kernel.procs.values() if p.state == "zombie"])
@@ -191,7 +197,7 @@ def run_invocation(spec):
             # a second interrupt (Ctrl-C pressed twice; SIGINT from the terminal plus SIGTERM from a supervisor) while
             # Conductor is dealing with the first one
             lines["fired2"] = True
-            site = (fn[len(src_prefix):] if fn.startswith(src_prefix) else "subprocess.py") + ":" + str(line)
+            site = site_name(fn, line)
             lines["site2"] = site
             kernel.ev("inject2", sig=inject["second"]["signal"], site=site, func=code.co_name, live=[p.pid for p in kernel.running()])
             signal.raise_signal(sig_by_name[inject["second"]["signal"]])
